@@ -87,7 +87,7 @@ pub fn c02(tier: Tier) -> Check {
         legs: vec![
             Box::new(RandomLeg {
                 name: "random-sr-rr",
-                cases: tier.pick(480_000, 1_500_000),
+                cases: tier.pick(480_000, 6_000_000),
                 make: Box::new(|| case_of(prop_oneof![gen::sr_spec(false).prop_map(PacketSpec::Sr), gen::rr_spec(false).prop_map(PacketSpec::Rr)].boxed())),
                 oracle: c02_oracle,
             }),
@@ -200,7 +200,7 @@ pub fn c03(tier: Tier) -> Check {
                non-trivial = >= 1 item",
         assumptions: vec![],
         legs: vec![
-            Box::new(RandomLeg { name: "random-sdes", cases: tier.pick(320_000, 1_000_000), make: Box::new(|| case_of(gen::sdes_spec(false).prop_map(PacketSpec::Sdes).boxed())), oracle: c03_oracle }),
+            Box::new(RandomLeg { name: "random-sdes", cases: tier.pick(320_000, 4_000_000), make: Box::new(|| case_of(gen::sdes_spec(false).prop_map(PacketSpec::Sdes).boxed())), oracle: c03_oracle }),
             Box::new(SweepLeg { name: "two-items-x-following-ssrc-x-padding", n: 12 * 12 * 6 * 3 * 2, at: Box::new(sdes_sweep1), oracle: c03_oracle, exhaustive: true }),
             Box::new(SweepLeg { name: "single-item-every-length", n: 256 + 255 + 255, at: Box::new(sdes_sweep2), oracle: c03_oracle, exhaustive: true }),
         ],
@@ -271,7 +271,7 @@ pub fn c04(tier: Tier) -> Check {
         legs: vec![
             Box::new(RandomLeg {
                 name: "random-bye-app",
-                cases: tier.pick(480_000, 1_500_000),
+                cases: tier.pick(480_000, 6_000_000),
                 make: Box::new(|| case_of(prop_oneof![gen::bye_spec(false).prop_map(PacketSpec::Bye), gen::app_spec(false).prop_map(PacketSpec::App)].boxed())),
                 oracle: c04_oracle,
             }),
@@ -357,7 +357,7 @@ pub fn c05(tier: Tier) -> Check {
             "RPSI bit strings are compared as bits (8*len - ignored significant bits on both sides)",
         ],
         legs: vec![
-            Box::new(RandomLeg { name: "random-feedback", cases: tier.pick(480_000, 1_500_000), make: Box::new(|| case_of(gen::fb_spec(false).prop_map(PacketSpec::Fb).boxed())), oracle: c05_oracle }),
+            Box::new(RandomLeg { name: "random-feedback", cases: tier.pick(480_000, 6_000_000), make: Box::new(|| case_of(gen::fb_spec(false).prop_map(PacketSpec::Fb).boxed())), oracle: c05_oracle }),
             Box::new(SweepLeg {
                 name: "rpsi-len-x-bits-x-padding",
                 n: 17 * 9 * 2,
